@@ -4,43 +4,105 @@ From Scenic Require Import C14.SimState C14.SimStateProofs.
 Import ListNotations.
 Open Scope Z_scope.
 
-(* For EVERY history of assignments, overrides and (nested) scenario starts/stops between the start
-   of a simulation and its end -- normal completion or an exception at any point, both are [Finish] --
-   the scene's objects read exactly what they read before. *)
-Theorem C14_scene_untouched : forall ops v0, forallb sim_op ops = true ->
-  orig (run fixed (Begin :: ops ++ [Finish]) (init v0)) = v0.
+(* For EVERY history between the start of a simulation and its end -- assignments by behaviours,
+   compose blocks and the simulator, overrides issued from any scenario of the tree or from a
+   behaviour, sub-scenarios (nested or parallel siblings) starting and stopping in any order, objects
+   created on the way, globals assigned by behaviours or rebound by requirement closures; the end being
+   normal completion or an exception at any point (both are [Finish], and the history may stop
+   anywhere) -- every object of the scene reads exactly what it read before, and the behaviours'
+   global namespace is the one the scene was made with. *)
+Theorem C14_scene_untouched : forall n ops v0 g0 gs, forallb (sim_op n) ops = true ->
+  let s' := run fixed (Begin :: ops ++ [Finish]) (init v0 g0 gs) in
+  (forall o p, (o < n)%nat -> orig s' o p = v0 o p) /\ ns s' = g0.
 Proof. exact scene_untouched. Qed.
 Print Assumptions C14_scene_untouched.
 
-(* whatever happened, after the end the veneer is inactive, proxies are off, no scenario is running *)
+(* an object created during the run (new Object in a sub-scenario's setup block) reads, after the
+   end, the values it was created with, whatever was assigned to it or overridden on it *)
+Theorem C14_created_object_untouched : forall ops1 ops2 ob vals v0 g0 gs,
+  forallb not_begin_finish ops1 = true -> forallb not_begin_finish ops2 = true ->
+  forallb (not_create ob) ops2 = true ->
+  forall p, orig (run fixed (Begin :: ops1 ++ Create ob vals :: ops2 ++ [Finish]) (init v0 g0 gs)) ob p = nth p vals 0.
+Proof. exact created_object_untouched. Qed.
+Print Assumptions C14_created_object_untouched.
+
+(* whatever happened (any variant of the code, any history, any starting state), after the end the
+   veneer is inactive, proxies are off, no scenario is running, the namespace is the saved original *)
 Theorem C14_state_reset : forall V ops s,
-  let s' := run V (ops ++ [Finish]) s in active s' = false /\ proxy s' = None /\ stack s' = [].
+  let s' := run V (ops ++ [Finish]) s in
+  active s' = false /\ proxy s' = None /\ running s' = [] /\ ns s' = ns_orig s'.
 Proof. exact state_reset. Qed.
 Print Assumptions C14_state_reset.
 
-(* every override is undone when its scenario ends: each overridden property reads the value it had
-   just before the scenario first overrode it (however many override statements touched the object);
-   other properties keep what was last assigned; the scenario stack is restored *)
-Theorem C14_override_undone : forall seg s, forallb seg_op seg = true ->
-  let s1 := step fixed s Push in
-  let s' := run fixed (Push :: seg ++ [Pop]) s in
-  stack s' = stack s /\
-  forall o p, read s' o p = match first_ov fixed seg s1 o p with
-                           | Some x => x
-                           | None => read (run fixed seg s1) o p end.
+(* the next simulation of the same scene starts with an empty override table *)
+Theorem C14_fresh_tables : forall ops s,
+  running (step fixed (run fixed (ops ++ [Finish]) s) Begin) = [{| sid := 0%nat; spar := 0%nat; stab := [] |}].
+Proof. exact fresh_tables. Qed.
+Print Assumptions C14_fresh_tables.
+
+(* every override is undone when its scenario ends: scenario k starts; then ANY history follows
+   (assignments, overrides by k and by any other scenario or behaviour, siblings / sub-scenarios
+   starting and stopping in any order, created objects, globals) during which k keeps running; then k
+   stops, by itself or because an ancestor is stopped.  Every property k has overridden then reads the
+   value it had just before k FIRST overrode it. *)
+Theorem C14_override_undone : forall k par seg s,
+  table_of k (running s) = None ->
+  forallb not_begin_finish seg = true -> forallb (not_start k) seg = true ->
+  let s1 := step fixed s (Start k par) in
+  let s2 := run fixed seg s1 in
+  table_of k (running s2) <> None ->
+  forall o p x, first_ov fixed k seg s1 o p = Some x -> read (step fixed s2 (Stop k)) o p = x.
 Proof. exact override_undone. Qed.
 Print Assumptions C14_override_undone.
+Example C14_override_undone_nonvacuous :
+  let seg := [Override 1 0 0 5; Start 2 0; Override 2 0 1 6; Start 3 1; Override 3 0 0 7; Override 0 1 1 8;
+              Create 2 [1;2;3]; Write 0 0 9; Override 1 0 0 11; Stop 2; NsWrite 0 4] in
+  let s := run fixed [Begin] (init v0 g0 gs) in
+  let s1 := step fixed s (Start 1 0) in
+  table_of 1 (running s) = None /\ forallb not_begin_finish seg = true /\ forallb (not_start 1) seg = true /\
+  table_of 1 (running (run fixed seg s1)) <> None /\ first_ov fixed 1 seg s1 0%nat 0%nat = Some 1 /\
+  read (run fixed seg s1) 0%nat 0%nat = 11.
+Proof. exact override_undone_nonvacuous. Qed.
 
-(* the code before the two repairs violated the property (F18, F6): kept as documentation *)
+(* a requirement / record / terminate-when closure reads the scene's sample for every global it
+   mentions, whatever happened to the namespace before (history independence of the rebinding) *)
+Theorem C14_nsbind_reads_sample : forall V s l n,
+  existsb (Nat.eqb n) l = true -> ns (step V s (NsBind l)) n = ns_samp s n.
+Proof. exact nsbind_reads_sample. Qed.
+Print Assumptions C14_nsbind_reads_sample.
+
+(* ---- the faithful model of the CURRENT code violates "every override is undone when its scenario
+   ends" for PARALLEL siblings overriding the same property (finding C14-sibling-overrides; replayed
+   on the real code: `do A(), B()` with both overriding ego.foo, A ending first -> ego.foo reads A's
+   overriding value after both have ended) *)
+Theorem C14_siblings_refuted :
+  read (run fixed [Begin; Start 1 0; Override 1 0 0 10; Start 2 0; Override 2 0 0 20; Stop 1; Stop 2] (init v0 g0 gs)) 0%nat 0%nat <> v0 0%nat 0%nat.
+Proof. exact siblings_refuted. Qed.
+Theorem C14_siblings_parent_refuted :
+  read (run fixed [Begin; Start 3 0; Start 1 3; Override 1 0 0 10; Start 2 3; Override 2 0 0 20; Stop 3] (init v0 g0 gs)) 0%nat 0%nat <> v0 0%nat 0%nat.
+Proof. exact siblings_parent_refuted. Qed.
+
+(* ---- variants of the code that violate the property: F18 and F6 (repaired in round 1), a _stop that
+   reverts its own table before its sub-scenarios', and a top-level override table that survives the
+   simulation (finding C14-stale-top-overrides, replayed on the real code) *)
 Theorem C14_old_finally_refuted :
-  orig (run old_finally [Begin; Write 0 0 3; Push; Override 0 0 5; Finish] (init v0)) 0%nat 0%nat <> v0 0%nat 0%nat.
+  orig (run old_finally [Begin; Write 0 0 3; Start 1 0; Override 1 0 0 5; Finish] (init v0 g0 gs)) 0%nat 0%nat <> v0 0%nat 0%nat.
 Proof. exact old_finally_refuted. Qed.
 Theorem C14_old_override_refuted :
-  read (run old_override [Begin; Push; Override 0 0 5; Override 0 1 20; Pop] (init v0)) 0%nat 1%nat <> v0 0%nat 1%nat.
+  read (run old_override [Begin; Start 1 0; Override 1 0 0 5; Override 1 0 1 20; Stop 1] (init v0 g0 gs)) 0%nat 1%nat <> v0 0%nat 1%nat.
 Proof. exact old_override_refuted. Qed.
+Theorem C14_own_first_refuted :
+  read (run own_first [Begin; Start 1 0; Override 1 0 0 5; Start 2 1; Override 2 0 0 7; Stop 1] (init v0 g0 gs)) 0%nat 0%nat <> v0 0%nat 0%nat.
+Proof. exact own_first_refuted. Qed.
+Theorem C14_stale_refuted :
+  read (run stale [Begin; Write 0 0 184; Override 0 0 0 5; Finish; Begin; Write 0 0 123; StopAll] (init v0 g0 gs)) 0%nat 0%nat <> 123.
+Proof. exact stale_refuted. Qed.
 
-(* non-vacuity: the repaired model on the same witnesses *)
+(* non-vacuity: the repaired model on the same witnesses (and siblings stopping newest first) *)
 Example C14_fixed_on_witnesses :
-  orig (run fixed [Begin; Write 0 0 3; Push; Override 0 0 5; Finish] (init v0)) 0%nat 0%nat = v0 0%nat 0%nat /\
-  read (run fixed [Begin; Push; Override 0 0 5; Override 0 1 20; Pop] (init v0)) 0%nat 1%nat = v0 0%nat 1%nat.
+  orig (run fixed [Begin; Write 0 0 3; Start 1 0; Override 1 0 0 5; Finish] (init v0 g0 gs)) 0%nat 0%nat = v0 0%nat 0%nat /\
+  read (run fixed [Begin; Start 1 0; Override 1 0 0 5; Override 1 0 1 20; Stop 1] (init v0 g0 gs)) 0%nat 1%nat = v0 0%nat 1%nat /\
+  read (run fixed [Begin; Start 1 0; Override 1 0 0 5; Start 2 1; Override 2 0 0 7; Stop 1] (init v0 g0 gs)) 0%nat 0%nat = v0 0%nat 0%nat /\
+  read (run fixed [Begin; Write 0 0 184; Override 0 0 0 5; Finish; Begin; Write 0 0 123; StopAll] (init v0 g0 gs)) 0%nat 0%nat = 123 /\
+  read (run fixed [Begin; Start 1 0; Override 1 0 0 10; Start 2 0; Override 2 0 0 20; Stop 2; Stop 1] (init v0 g0 gs)) 0%nat 0%nat = v0 0%nat 0%nat.
 Proof. exact fixed_on_witnesses. Qed.
